@@ -34,21 +34,21 @@ func axText(name string) string {
 // with values it computed, and a client that calls them directly with other
 // integers builds objects outside that quantifier.
 var closedWorldFns = map[string]string{
-	"calendar.NewNineStar":        "star objects reachable from a date are built by the nine-star accessors only (R16.1 checks every call site)",
-	"calendar.NewLunarMonth":      "month objects are built by LunarYear.compute only",
-	"calendar.NewDaYun":           "built by Yun.GetDaYunBy",
-	"calendar.NewLiuNian":         "built by DaYun.GetLiuNianBy",
-	"calendar.NewXiaoYun":         "built by DaYun.GetXiaoYunBy",
-	"calendar.NewLiuYue":          "built by LiuNian.GetLiuYue",
-	"calendar.NewShuJiu":          "built by Lunar.GetShuJiu",
-	"calendar.NewFu":              "built by Lunar.GetFu",
-	"SolarUtil.GetDaysOfMonth":    "called with the month of a validated Solar or a loop counter in 1..12",
-	"SolarUtil.GetDaysInYear":     "called with the fields of a validated Solar",
-	"SolarUtil.GetDaysBetween":    "called with the fields of validated Solars",
-	"SolarUtil.GetWeek":           "called with the fields of a validated Solar",
-	"SolarUtil.GetJulianDay":      "called with the fields of a validated Solar",
-	"SolarUtil.GetWeeksOfMonth":   "called with the fields of a SolarWeek",
-	"FotoUtil.GetXiu":             "called with the month and day of a Lunar",
+	"calendar.NewNineStar":         "star objects reachable from a date are built by the nine-star accessors only (R16.1 checks every call site)",
+	"calendar.NewLunarMonth":       "month objects are built by LunarYear.compute only",
+	"calendar.NewDaYun":            "built by Yun.GetDaYunBy",
+	"calendar.NewLiuNian":          "built by DaYun.GetLiuNianBy",
+	"calendar.NewXiaoYun":          "built by DaYun.GetXiaoYunBy",
+	"calendar.NewLiuYue":           "built by LiuNian.GetLiuYue",
+	"calendar.NewShuJiu":           "built by Lunar.GetShuJiu",
+	"calendar.NewFu":               "built by Lunar.GetFu",
+	"SolarUtil.GetDaysOfMonth":     "called with the month of a validated Solar or a loop counter in 1..12",
+	"SolarUtil.GetDaysInYear":      "called with the fields of a validated Solar",
+	"SolarUtil.GetDaysBetween":     "called with the fields of validated Solars",
+	"SolarUtil.GetWeek":            "called with the fields of a validated Solar",
+	"SolarUtil.GetJulianDay":       "called with the fields of a validated Solar",
+	"SolarUtil.GetWeeksOfMonth":    "called with the fields of a SolarWeek",
+	"FotoUtil.GetXiu":              "called with the month and day of a Lunar",
 	"calendar.NewSolarWeekFromYmd": "week objects reachable from a date are built from validated Solars (week start: AX-API)",
 }
 
